@@ -192,7 +192,18 @@ func (s *stepper) layout(w *wrec) string {
 
 // build draws a batch of the class whose stream is exactly n units long and
 // whose size estimate relates to that length as ex / gate demand.
-func (s *stepper) build(args map[string]any, gate string) (*genBatch, arrow.RecordBatch, error) {
+func (s *stepper) build(args map[string]any, gate string) (g *genBatch, b arrow.RecordBatch, err error) {
+	// a drawn schema can be unable to meet the size relations (e.g. a builder whose buffers
+	// grow in large steps); draw another member of the same class then
+	for attempt := 0; attempt < 6; attempt++ {
+		if g, b, err = s.buildOnce(args, gate); err == nil {
+			return g, b, nil
+		}
+	}
+	return nil, nil, err
+}
+
+func (s *stepper) buildOnce(args map[string]any, gate string) (*genBatch, arrow.RecordBatch, error) {
 	sc, rw, md := replay.Str(args, "sc"), replay.Str(args, "rows"), replay.Str(args, "md")
 	n, ex := replay.Int(args, "n"), replay.Int(args, "ex")
 	target := n * s.unit
